@@ -496,6 +496,7 @@ def run_C14(res, tier, seed, t_end):
         do(lambda: p.execute(raise_on_error=False) and [str(type(x).__name__) if isinstance(x, Exception) else x for x in p.execute(raise_on_error=False)] if False else None)
         p2 = r.pipeline(transaction=True); p2.set('t', '1'); p2.get('t'); do(lambda: p2.execute())
         ps = r.pubsub(); ps.subscribe('ch'); do(lambda: ps.get_message(timeout=0.2))
+        do(lambda: ps.get_message(timeout=0.03))         # nothing pending: the poll loop runs into its time-out
         r.publish('ch', 'queued-before-outage')
         srv.connected = False
         do(lambda: ps.get_message(timeout=0.2))          # the reply queued before the outage is still handed out
@@ -526,6 +527,7 @@ def run_C14(res, tier, seed, t_end):
         out.append(('ok', None))
         p2 = r.pipeline(transaction=True); p2.set('t', '1'); p2.get('t'); await do(lambda: p2.execute())
         ps = r.pubsub(); await ps.subscribe('ch'); await do(lambda: ps.get_message(timeout=0.2))
+        await do(lambda: ps.get_message(timeout=0.03))
         await r.publish('ch', 'queued-before-outage')
         srv.connected = False
         await do(lambda: ps.get_message(timeout=0.2))
@@ -550,6 +552,32 @@ def run_C14(res, tier, seed, t_end):
             got.append(m and m['data'])
         await t
         return got
+    def burst_sync(srv):
+        # the same with threads: a subscriber polling with a time-out is handed the messages published meanwhile, in order
+        import threading
+        r, r2 = fakeredis.FakeStrictRedis(server=srv), fakeredis.FakeStrictRedis(server=srv)
+        ps = r.pubsub(); ps.subscribe('ch'); ps.get_message(timeout=0.2)
+
+        def pub():
+            time.sleep(0.05)
+            p = r2.pipeline(transaction=True); p.publish('ch', 'm1'); p.publish('ch', 'm2'); p.publish('ch', 'm3'); p.execute()
+            r2.publish('ch', 'm4'); r2.publish('ch', 'm5')
+        t = threading.Thread(target=pub, daemon=True); t.start()
+        got = []
+        for _ in range(5):
+            m = ps.get_message(ignore_subscribe_messages=True, timeout=2.0)
+            got.append(m and m['data'])
+        t.join(5)
+        t0 = time.time(); none = ps.get_message(timeout=0.05); waited = time.time() - t0
+        return got, none, waited
+    res.evaluations += 1
+    try:
+        got_s, none_s, waited_s = burst_sync(fakeredis.FakeServer())
+    except Exception as e:      # noqa
+        got_s, none_s, waited_s = repr(e), None, 1.0
+    if got_s != [b'm1', b'm2', b'm3', b'm4', b'm5'] or none_s is not None or waited_s < 0.05:
+        res.add(finding('C14', 'sync_messages_in_order', 'a polling sync subscriber received %r, then %r after %.3fs of a 0.05s time-out' % (got_s, none_s, waited_s)))
+        return
     loop = asyncio.new_event_loop()
     try:
         got = loop.run_until_complete(asyncio.wait_for(burst(fakeredis.FakeServer()), 20))
